@@ -246,7 +246,7 @@ impl<'a> StateMachine<'a> {
     //@afterstmt <<<write_diff_header(>>>| assert(self.painter.output_buffer@ =~= Seq::<char>::empty());
     //@before <<<paint::paint_minus_and_plus_lines(>>>| assert(self.painter.output_buffer@ =~= Seq::<char>::empty());
     //@afterstmt <<<paint::paint_minus_and_plus_lines(>>>| let ghost ob = self.painter.output_buffer@; proof { let l = old(self).painter.merge_conflict_lines; let ta = texts(l.ancestral@); let ts = texts(mc_get(l, *derived_commit_type)@); assert(self.painter.merge_conflict_lines == l); assert(lines_of(ob) == lines_of(Seq::<char>::empty()) + ta + ts); broadcast use rax::rax_group; assert(lines_of(Seq::<char>::empty()) == Seq::<Seq<char>>::empty()); assert(Seq::<Seq<char>>::empty() + ta =~= ta); assert(lines_of(ob) == ta + ts); }
-    //@before <<<} // write_merge_conflict_decoration>>>| proof { let nb = self.painter.writer.hist().last()->Flush_0; if k == 0 { assert(mc_bufs_ok(old(self), 1, nb, w.1)); assert(self.painter.writer.hist() == mc_hist(old(self), 1, nb, w.1)); } else { assert(mc_bufs_ok(old(self), 2, w.0, nb)); assert(self.painter.writer.hist() == mc_hist(old(self), 2, w.0, nb)); } }
+    //@after#3/3 <<<self.painter.emit()?;>>>| proof { let nb = self.painter.writer.hist().last()->Flush_0; if k == 0 { assert(mc_bufs_ok(old(self), 1, nb, w.1)); assert(self.painter.writer.hist() == mc_hist(old(self), 1, nb, w.1)); } else { assert(mc_bufs_ok(old(self), 2, w.0, nb)); assert(self.painter.writer.hist() == mc_hist(old(self), 2, w.0, nb)); } }
     //@after <<<&self.config.merge_conflict_begin_symbol, &mut self.painter, self.config, )?;>>>| assert(mc_bufs_ok(old(self), 0, Seq::empty(), Seq::empty())); assert(sm_frame(self, old(self))); assert(self.state == old(self).state); assert(self.painter.merge_conflict_lines == old(self).painter.merge_conflict_lines); assert(self.painter.merge_conflict_commit_names == old(self).painter.merge_conflict_commit_names); assert(self.painter.minus_lines@ == old(self).painter.minus_lines@); assert(self.painter.output_buffer@.len() == 0); assert(self.painter.writer.hist() == mc_hist(old(self), 0, Seq::empty(), Seq::empty()));
 
     //@ fn src/handlers/merge_conflict.rs StateMachine::exit_merge_conflict
